@@ -191,7 +191,32 @@ def solve(dom, cl, total, damping, minimal, fpots, cap, pre=None):
         used += cnt[0]
         if pf <= 1e-6 * total:
             break
+    # "run to convergence" is a limit statement: a run that reaches the cap while the disagreement is still contracting (it fell to
+    # <= 0.7 of its value over the last stage, and every stage is as long as all earlier ones together) has not failed to converge, it
+    # is slow (damping close to 1 moves 5% per sweep).  Such runs are continued, stage by stage, up to 16x the cap; only a run whose
+    # disagreement has stopped contracting, or that exhausts this budget, is handed on as not converged.
+    ext = 0
+    while (calls and len(calls) >= 2 and used >= cap and used < 16 * cap and calls[-1]['pf'] > 1e-6 * total
+           and math.isfinite(calls[-1]['pf']) and calls[-1]['pf'] <= 0.7 * calls[-2]['pf'] and float(rg.damping) > 0.1):
+        it = min(max(used, 400), 16 * cap - used)
+        rg.iters = it
+        cnt = [0]
+        with np.errstate(all='ignore'):
+            mu = rg.belief_propagation(cv, callback=lambda m: cnt.__setitem__(0, cnt[0] + 1))
+            pf_impl = float(rg.primal_feasibility(mu))
+        tab = rggen.table(mu)
+        errs = edge_errors(rg, tab, size)
+        pf = sum(errs) / len(errs) if errs else 0.0
+        calls.append({'iters': it, 'sweeps': cnt[0], 'tab': tab, 'pf_impl': pf_impl, 'pf': pf, 'errs': errs, 'damping': float(rg.damping), 'fp': fpots})
+        used += cnt[0]
+        ext += 1
+        EXTENDED[0] += 1
+        if cnt[0] == 0:
+            break
     return rg, calls, used, size
+
+
+EXTENDED = [0]
 
 
 PREHIST = [0]
@@ -376,6 +401,7 @@ def run(res, drv, tier, seed):
         reqs.append({'op': 'hps', 'dom': dom, 'rg': rggen.slim_rg(rggen.export_rg(rg)), 'total': enc_f(total), 'damping': enc_f(damping),
                      'convergence': enc_f(rg.convergence), 'calls': [{'iters': c['iters'], 'pots': rggen.enc_fpots(c.get('fp', fpots)), 'damping': enc_f(c['damping'])} for c in calls]})
     resps = drv.run(reqs, timeout=3000) if drv else [None] * (2 * len(work))
+    res.extra['stages_continued_beyond_cap_while_contracting'] = EXTENDED[0]
     r_aux = rng(seed, 'C17-aux')
     for i, (case, rg, calls, used, size, fpots, pots) in enumerate(work):
         check(res, resps[2 * i + 1], resps[2 * i], case, rg, calls, used, size, fpots, pots, r_aux, caps[i])
